@@ -147,6 +147,30 @@ def conclude(prop, tier, seed, results, t0, a):
         lines.append(f"VIOLATION property={prop} replay={path}{tail}")
         violations.append({"obligation": ob["name"], "site": ob["site"], "detail": ob["detail"],
                            "replay": path, "verdict": verdict})
+    standins = []
+    if tier == "thorough" and not a.only:
+        from replay import concretize
+        for oracle, params in BOUNDED.get(prop, []):
+            key = hashlib.sha256((prop + oracle + json.dumps(params, sort_keys=True)).encode()).hexdigest()[:10]
+            path = os.path.join(ROOT, "replays", f"{prop}-bounded-{oracle}-{key}.json")
+            sc = {"property": prop, "obligation": f"bounded/{oracle}", "site": "native bounded search",
+                  "config": concretize.DEFAULT_CFG, "oracle": oracle, "params": params,
+                  "verdict": None, "observed": None,
+                  "note": "bounded native search over the real code (labelled bounded, not a proof)"}
+            with open(path, "w") as fh:
+                json.dump(sc, fh, indent=1)
+            res = concretize.run_driver(path, ROOT)
+            sc["verdict"] = "reproduced" if res.get("reproduced") is True else \
+                ("passed" if res.get("reproduced") is False else "driver-error")
+            sc["observed"] = res.get("observed")
+            with open(path, "w") as fh:
+                json.dump(sc, fh, indent=1)
+            standins.append({"oracle": oracle, "params": params, "result": sc["verdict"],
+                             "observed": (sc["observed"] or "")[:200], "bounded": True})
+            if res.get("reproduced") is True:
+                lines.append(f"VIOLATION property={prop} replay={path}")
+                violations.append({"obligation": f"bounded/{oracle}", "site": "native bounded search",
+                                   "detail": sc["observed"], "replay": path, "verdict": "reproduced"})
     n_ob = len(groups)
     n_dis = len(discharged)
     wall = time.time() - t0
@@ -224,6 +248,7 @@ def conclude(prop, tier, seed, results, t0, a):
             "outcomes_covered": {f"{r['job'][1]}[{r['job'][2]}]": r["outcomes"]
                                  for r in results if r["job"][0] == "fn"},
             "samples": samples,
+            "bounded_standins": standins,
             "lock_sets_at_access_sites": locksets,
             "evaluations": len(obs),
             "distinct_nontrivial": (len(fault_sites) if prop == "C13" else n_ob),
@@ -251,6 +276,39 @@ def conclude(prop, tier, seed, results, t0, a):
           f"unknown={len(unknown)} jobs={len(results)} paths={evidence['coverage']['paths']} "
           f"wall={wall:.1f}s exit={exit_code} {reason}")
     return exit_code
+
+
+# thorough tier only: bounded native searches over the real code with the property-level oracles
+# of replay/driver.py (labelled bounded in the evidence, never counted as discharged obligations)
+SW = {"length": 3, "focus": ["tag", "delete", "store"]}
+BOUNDED = {
+    "C01": [("store_roundtrip", {"kind": k, "offset": 2}) for k in ("str", "Path", "file", "BytesIO")]
+    + [("model_sweep", SW)],
+    "C02": [("digest_history", {}), ("digest_keys_independent", {"first": {"additional_algorithm": "sha3_256"}}),
+            ("digest_keys_independent", {"first": {"checksum_algorithm": "blake2s", "checksum": "00"}})],
+    "C03": [("model_sweep", SW)],
+    "C04": [("model_sweep", SW)],
+    "C05": [("model_sweep", SW), ("delete_total", {"state": "object-missing"})],
+    "C06": [("verdict_matrix", {})],
+    "C08": [("race_same_pid_store", {}), ("race_delete_all_metadata", {})],
+    "C09": [("observe_steps", {})],
+    "C10": [("crash_recover", {})],
+    "C11": [("model_sweep", {"length": 3, "metadata": True, "focus": ["smeta", "dmeta"],
+                             "pids": ["pid-a", "pid-b"]}),
+            ("model_sweep", {"length": 4, "metadata": True, "contents": 1, "no_tag": True,
+                             "require_all": ["smeta", "delete"], "pids": ["pid-a", "pid-b"]})],
+    "C12": [("race_delete_all_metadata", {}), ("race_store_meta_delete_all", {}),
+            ("metadata_exclusion", {})],
+    "C14": [("config_matrix", {})],
+    "C15": [("model_sweep", {"length": 3, "focus": ["store", "tag"], "metadata": True,
+                             "pids": ["pid-a", "dir/pid b".replace(" ", "_")]})],
+    "C16": [("mp_mode", {})],
+    "C17": [("reject_matrix", {})],
+    "C18": [("model_sweep", {"length": 3, "focus": ["delete", "tag"],
+                             "pids": ["../../etc/passwd", "passwd", "../../etc/PASSWD"]})],
+    "C19": [("verdict_matrix", {})],
+    "C20": [("client_matrix", {})],
+}
 
 
 def manifest_level(prop):
